@@ -991,7 +991,9 @@ def compile_main(raw_args: Optional[Sequence[str]] = None) -> None:
             )
         except RepositoryInitializationError:
             raise
-        except ValueError as ex:
+        except (ValueError, OSError) as ex:
+            # OSError: a repository argument that exists but cannot be used, e.g. a
+            # file given to --find-links or a directory given to --solution.
             print(f"ERROR: {ex}", file=sys.stderr)
             sys.exit(1)
         results, roots = perform_compile(
